@@ -759,6 +759,8 @@ def gen_explicit_links(rng, state):
                 tokens, meta = list(ixns[-1][1]), dict(ixns[-1][3])       # later wins inside the explicit links
                 section = ixns[-1][0]
             params = [] if section == "exclusions" else [rng.choice(["1", "2"]), "0.%d" % rng.randint(1, 9), str(rng.randint(10, 999))]
+            if section == "exclusions":
+                meta = {}       # (a line without parameters: a trailing {...} would be read as attributes of its last atom)
             ixns.append([section, tokens, params, meta])
         ixns.sort(key=lambda x: list(XSECTIONS).index(x[0]))     # sections are contiguous in a file
         links.append(ixns)
